@@ -323,8 +323,22 @@ def call_statement(ex, n: ast.Call, p):
                 new = ex.concat(cur, ex.as_list(v, p1, n))
             out.append(p1.bind(name, new))
         return out
-    if isinstance(cur, SetV) and attr in ("add", "remove", "discard"):
-        raise Unsupported("set mutation (handled by loop summaries only)")
+    if isinstance(cur, SetV) and attr in ("remove", "discard") and len(n.args) == 1:
+        out = []
+        for p1, v in ex.ev(n.args[0], p):
+            hits = [eq(v, x) for x in cur.items]
+            anyhit = z3.Or(hits) if hits else z3.BoolVal(False)
+            if attr == "remove":
+                p1 = ex.implicit(p1, z3.Not(anyhit), "KeyError", n)
+            for k, h in enumerate(hits):   # which element is removed (elements of a set are pairwise different)
+                q = p1.fork(h)
+                if ex.feasible(q.cond):
+                    out.append(q.bind(name, SetV(cur.items[:k] + cur.items[k + 1:])))
+            if attr == "discard":
+                q = p1.fork(z3.Not(anyhit))
+                if ex.feasible(q.cond):
+                    out.append(q)
+        return out
     return None
 
 
